@@ -62,14 +62,38 @@ pub fn check_input(entry: usize, ty: Ty, text: &[u8], l: &mut Local) -> CaseResu
     let e = &cat().entries[entry];
     let o = opt_model_for(m);
     let sep = m.digit_separator;
-    // a byte that can never continue a number in this format
-    let junk = if sep == b'$' { b'!' } else { b'$' };
+    // a byte that can never continue a number in this format: the symbol whose digit value equals the
+    // radix (':' after '9', 'G' after 'F' - junk that an off-by-one digit test takes for a digit) unless
+    // the format uses it as punctuation
+    let junk = {
+        let c = vcore::gen::radix_symbol(m.mantissa_radix().max(m.exponent_radix()));
+        let used = [sep, o.decimal_point, o.exponent, m.base_prefix, m.base_suffix];
+        let clash = used.iter().any(|&u| u != 0 && (u == c || (c.is_ascii_alphabetic() && u.eq_ignore_ascii_case(&c))));
+        if !clash {
+            c
+        } else if sep == b'$' {
+            b'!'
+        } else {
+            b'$'
+        }
+    };
     let nsep = text.iter().filter(|&&c| c == sep).count();
     // formats that do not require digits accept digit-less inputs (the recorded C12 finding on
     // empty strings / bare signs); the separator relations say nothing about those: abstain
     if !m.required_mantissa_digits && !text.iter().any(|c| c.is_ascii_alphanumeric() && *c != o.exponent) {
         l.class("abstain:no-digits-in-a-digits-optional-format");
         return Ok(());
+    }
+    // the documentation says nothing about a separator that touches the base prefix letter (between
+    // the '0' and the letter, or directly after the letter: is the '0' a digit of the component?);
+    // the float and the integer parser read it differently. Not judged.
+    if m.base_prefix != 0 && nsep > 0 {
+        let is_p = |c: u8| if m.case_sensitive_base_prefix { c == m.base_prefix } else { c.eq_ignore_ascii_case(&m.base_prefix) };
+        let touches = text.windows(2).any(|w| (w[0] == sep && is_p(w[1])) || (is_p(w[0]) && w[1] == sep));
+        if touches {
+            l.class("abstain:separator-touching-the-base-prefix");
+            return Ok(());
+        }
     }
     let got = lex_complete(entry, ty, text, &o);
     l.eval(1);
@@ -172,8 +196,15 @@ pub fn check_input(entry: usize, ty: Ty, text: &[u8], l: &mut Local) -> CaseResu
                     _ => false,
                 };
                 let digitless_int = matches!(ty, Ty::Int(_)) && no_digit_before(&p1) && no_digit_before(&p2);
-                if p1 != p2 && digitless_int {
-                    l.class("abstain:digit-less-integer-prefix(C11 finding)");
+                // recorded finding (exact shape only): the separator format reports Empty(i) where its
+                // counterpart reports Ok((0, i)) for an input without any digit in front of position i
+                let empty_vs_zero = matches!((&p1, &p2), (POut::Err(k, Some(i)), POut::Ok(0, n)) if k == "Empty" && i == n);
+                if p1 != p2 && digitless_int && empty_vs_zero {
+                    let msg = format!(
+                        "{} {} [{}] input {:?}: (c, partial) separator-free input must be treated identically by the separator-free counterpart format — {}: {}; counterpart {}: {}",
+                        ty.name(), e.name, m.describe(), show(text), e.name, p1.show(), cat().entries[cp].name, p2.show()
+                    );
+                    return Err(Fail::known(msg, "c13_digitless_partial_integer_empty_with_separators"));
                 } else if p1 != p2 {
                     return Err(mk(
                         "(c, partial) separator-free input must be treated identically by the separator-free counterpart format",
